@@ -53,7 +53,7 @@ z zoomAndPan`))
 // (`fill-rull`: no path was ever filled with the even-odd rule).
 func c18AttributeVocabulary(c *core.Check) {
 	p := c.Prog
-	r := c.Rule("R15", "attribute names are SVG's: every constant key used to look up a nodeAttributes map in package svg is in the attribute index of SVG 1.1/2 (namespace prefixes dropped), the named extensions excepted", 60)
+	r := c.Rule("R15", "attribute names are SVG's: every constant key used to look up a nodeAttributes map in package svg is in the attribute index of SVG 1.1/2 (namespace prefixes dropped), the named extensions excepted", 72)
 	extensions := map[string]string{
 		"display-anchor": "not an SVG attribute: an extension the text code of the port (and of upstream) reads next to text-anchor",
 	}
